@@ -109,6 +109,32 @@ pub fn remote_key(alg: &'static SignatureAlgorithm, rsa_fixture: &[u8]) -> Remot
 	Remote { key_pair: KeyPair::from_remote(Box::new(remote)).unwrap(), log, fail_at, pkcs8 }
 }
 
+/// the given PKCS#8 key (ring in the harness) behind the `RemoteKeyPair` trait
+pub fn remote_from_pkcs8(alg: &'static SignatureAlgorithm, pkcs8: &[u8]) -> Remote {
+	let rng = SystemRandom::new();
+	let (key, public) = if alg == &PKCS_ED25519 {
+		let k = rs::Ed25519KeyPair::from_pkcs8_maybe_unchecked(pkcs8).unwrap();
+		let p = k.public_key().as_ref().to_vec();
+		(RingKey::Ed(k), p)
+	} else if alg == &PKCS_ECDSA_P256_SHA256 {
+		let k = rs::EcdsaKeyPair::from_pkcs8(&rs::ECDSA_P256_SHA256_ASN1_SIGNING, pkcs8, &rng).unwrap();
+		let p = k.public_key().as_ref().to_vec();
+		(RingKey::Ec(k), p)
+	} else if alg == &PKCS_ECDSA_P384_SHA384 {
+		let k = rs::EcdsaKeyPair::from_pkcs8(&rs::ECDSA_P384_SHA384_ASN1_SIGNING, pkcs8, &rng).unwrap();
+		let p = k.public_key().as_ref().to_vec();
+		(RingKey::Ec(k), p)
+	} else {
+		let k = rs::RsaKeyPair::from_pkcs8(pkcs8).unwrap();
+		let p = k.public_key().as_ref().to_vec();
+		(RingKey::Rsa(k, &rs::RSA_PKCS1_SHA256), p)
+	};
+	let log = Arc::new(Mutex::new(Vec::new()));
+	let fail_at = Arc::new(AtomicI64::new(-1));
+	let remote = RemoteRing { key, alg, public, log: log.clone(), fail_at: fail_at.clone() };
+	Remote { key_pair: KeyPair::from_remote(Box::new(remote)).unwrap(), log, fail_at, pkcs8: pkcs8.to_vec() }
+}
+
 /// a locally held key for `alg` (crypto builds); RSA from the fixture
 #[cfg(not(feature = "nocrypto"))]
 pub fn local_key(alg: &'static SignatureAlgorithm, rsa_fixture: &[u8]) -> KeyPair {
